@@ -422,11 +422,18 @@ func (f *file) ReadDir(n int) ([]hackpadfs.DirEntry, error) {
 	if err != nil {
 		return nil, &hackpadfs.PathError{Op: "readdir", Path: f.path, Err: err}
 	}
-	start, end := f.offset, f.offset+int64(n)
-	if n <= 0 {
-		start, end = 0, int64(len(dirNames))
-	} else if end > int64(len(dirNames)) {
-		end = int64(len(dirNames))
+	// f.offset is the number of entries already returned. It may lie beyond the end, e.g. after a Seek
+	start, end := f.offset, int64(len(dirNames))
+	if start > end {
+		start = end
+	}
+	if n > 0 {
+		if start == end {
+			return nil, io.EOF
+		}
+		if start+int64(n) < end {
+			end = start + int64(n)
+		}
 	}
 	offsetAdd := end - start
 
